@@ -597,3 +597,37 @@ def _fwd_helper_edits(dest_suffix, host_suffix):
 
 M2('c09-forwarded-helper-lowercases-dest', 'C09', 'R7', _fwd_helper_edits('.lower()', ''))
 M2('c09-forwarded-helper-casefolds-host', 'C09', 'R7', _fwd_helper_edits('', '.casefold()'))
+
+# ---- pre-emptive hardening (shapes read since the third wave): refactoring + break
+# R6: the first/last comparison under a negation; `not last > first` also rejects the one-byte range
+M('c09-range-negated-compare-rejects-equal', 'C09', 'R6', _RQ, "                if last_num < first_num:\n                    raise ValueError()\n",
+  "                if not last_num > first_num:\n                    raise ValueError()\n", also=('C16',))
+# R6: the two offsets bound by separate statements, crossed
+M('c09-range-separate-assignments-crossed', 'C09', 'R6', _RQ, "                first_num, last_num = (int(first), int(last))\n",
+  "                first_num = int(last)\n                last_num = int(first)\n", also=('C16',))
+# R6: range_unit as the head of a partition -- at the LAST '='
+M('c09-range-unit-rpartition-head', 'C09', 'R6', _RQ, "            unit, sep, req_range = value.partition('=')\n            return unit\n",
+  "            return value.rpartition('=')[0]\n", also=('C16',))
+# R19: the '://' literal hoisted into a module constant with a typo
+M2('c09-scheme-separator-constant-typo', 'C09', 'R19', [
+    {'file': _RQ, 'old': "            self._cached_prefix = self.scheme + '://' + self.netloc + self.root_path\n",
+     'new': "            self._cached_prefix = self.scheme + _SCHEME_SEP + self.netloc + self.root_path\n"},
+    {'file': _RQ, 'old': "class Request:\n", 'new': "_SCHEME_SEP = ':/'\n\n\nclass Request:\n"}])
+# R16: a local alias of the pattern's bound match -- of a looser pattern whose value group may be empty
+M2('c09-forwarded-match-alias-loose-pattern', 'C09', 'R16', [
+    {'file': _FW, 'old': "def _parse_forwarded_header(", 'new': "_LOOSE_PAIR_RE = re.compile('([A-Za-z]+)=([^;, ]*)')\n\n\ndef _parse_forwarded_header("},
+    {'file': _FW, 'old': "    while 0 <= pos < end:\n        match = _FORWARDED_PAIR_RE.match(forwarded, pos)\n",
+     'new': "    match_pair = _LOOSE_PAIR_RE.match\n    while 0 <= pos < end:\n        match = match_pair(forwarded, pos)\n"}])
+# R16: the match bound by an assignment expression, the emptiness-proof gone with the looser pattern
+M2('c09-forwarded-match-walrus-loose-pattern', 'C09', 'R16', [
+    {'file': _FW, 'old': "def _parse_forwarded_header(", 'new': "_LOOSE_PAIR_RE = re.compile('([A-Za-z]+)=([^;, ]*)')\n\n\ndef _parse_forwarded_header("},
+    {'file': _FW, 'old': "        match = _FORWARDED_PAIR_RE.match(forwarded, pos)\n\n        if match is not None:  # got a valid forwarded-pair\n",
+     'new': "        if (match := _LOOSE_PAIR_RE.match(forwarded, pos)) is not None:\n"}])
+# R7 / R16: the pair taken out of the match by `name = m.group(1)` / `value = m.group(2)`, or through a local `groups = m.groups()`;
+# the mistake is a node identifier folded to lower case
+M2('c09-forwarded-group-calls-src-lowered', 'C09', 'R7', [
+    {'file': _FW, 'old': "                name, value = match.groups()\n", 'new': "                name = match.group(1)\n                value = match.group(2)\n"},
+    {'file': _FW, 'old': "                    parsed_element.src = value\n", 'new': "                    parsed_element.src = value.lower()\n"}])
+M2('c09-forwarded-groups-local-host-lowered', 'C09', 'R7', [
+    {'file': _FW, 'old': "                name, value = match.groups()\n", 'new': "                groups = match.groups()\n                name, value = groups\n"},
+    {'file': _FW, 'old': "                    parsed_element.host = value\n", 'new': "                    parsed_element.host = value.lower()\n"}])
